@@ -144,7 +144,7 @@ class SubjectAnalysis:
                      key='RE.2|owning-snapshot')
         # SUB.4 / RT.2: arguments are passed as lvalues (never consumed by the first receiver)
         for c in calls:
-            cargs = c.ns('args')[1:] if (c.ck == 'op' and c.mclass) else c.ns('args')
+            cargs = c.ns('args')[1:] if (c.ck == 'op' and 'mclass' in c.d) else c.ns('args')
             for i, a in enumerate(cargs):
                 if a is None: continue
                 x = a
